@@ -82,6 +82,9 @@ func (vc *VC) entry() {
 		v := vc.symVal("p_"+sanitize(p.Name()), p.Type(), h)
 		vc.vals[p] = v
 		vc.paramVals = append(vc.paramVals, v)
+		if v.K == KPtr || v.K == KSlice {
+			vc.knownRefs = append(vc.knownRefs, v.C[0])
+		}
 		vc.inputs = append(vc.inputs, inputDesc{Name: p.Name(), Type: p.Type().String(), V: v})
 		// API convention: pointer parameters and receivers are non-nil (checked at verified call sites)
 		if v.K == KPtr && !isUnsafePtr(p.Type()) && !(vc.c != nil && vc.c.Nullable[p.Name()]) {
@@ -374,6 +377,7 @@ func (vc *VC) execCall(ins *ssa.Call) {
 			return
 		}
 		vc.callees["invoke:"+cc.Method.FullName()] = true
+		vc.frameOfCallCheck([]frameEntry{{allComps(), -1}}, nil, ins.Pos(), "interface method "+cc.Method.Name())
 		vc.havocAll(h, nil)
 		vc.vals[ins] = vc.resultVal(ins, h)
 		return
@@ -391,6 +395,7 @@ func (vc *VC) execCall(ins *ssa.Call) {
 		return
 	case *ssa.MakeClosure:
 		vc.note("closure call abstracted (havoc)")
+		vc.frameOfCallCheck([]frameEntry{{allComps(), -1}}, nil, ins.Pos(), "closure")
 		vc.havocAll(h, nil)
 		vc.vals[ins] = vc.resultVal(ins, h)
 		return
@@ -416,6 +421,7 @@ func (vc *VC) execCall(ins *ssa.Call) {
 		}
 		vc.oblige("safety.nil", vc.cur.pc, sNot(sEq(fv.C[0], "0")), ins.Pos(), "call of nil function value")
 		vc.note("call through function value abstracted (havoc)")
+		vc.frameOfCallCheck([]frameEntry{{allComps(), -1}}, nil, ins.Pos(), "function value")
 		vc.havocAll(h, nil)
 		vc.vals[ins] = vc.resultVal(ins, h)
 	}
@@ -450,8 +456,40 @@ func (vc *VC) callFunction(ins *ssa.Call, f *ssa.Function, args []*Val) {
 	}
 	// no contract: inferred frame, unconstrained results
 	fr := vc.e.frameOf(f)
+	vc.frameOfCallCheck(fr, args, ins.Pos(), f.Name())
 	vc.applyFrame(h, fr, args)
 	vc.vals[ins] = vc.resultVal(ins, h)
+}
+
+// frameOfCallOK: a callee whose effects are only known as an inferred frame (or not at all) is checked against
+// the caller's assigns clause: writes rooted at an argument must hit an assigns target (or a fresh object);
+// a callee that may write anywhere cannot be reconciled with a declared frame.
+func (vc *VC) frameOfCallCheck(fr []frameEntry, args []*Val, pos token.Pos, what string) {
+	if vc.c == nil || !vc.c.HasAssigns || vc.c.AssignsAny {
+		return
+	}
+	for _, fe := range fr {
+		if len(fe.comps) == 0 {
+			continue
+		}
+		if fe.arg < 0 || fe.arg >= len(args) {
+			vc.oblige("frame.call", vc.cur.pc, "false", pos, what+" may write memory that is not rooted at its arguments: the caller's assigns clause cannot be established")
+			return
+		}
+		a := args[fe.arg]
+		switch a.K {
+		case KPtr, KSlice:
+			env := vc.entryEnv()
+			alts := []string{app(">=", a.C[0], vc.heap0.alloc), sEq(a.C[0], "0")}
+			for _, cl := range vc.c.Assigns {
+				v := vc.compile(env, cl.N)
+				alts = append(alts, sEq(a.C[0], vc.refOf(v)))
+			}
+			vc.oblige("frame.call", vc.cur.pc, sOr(alts...), pos, fmt.Sprintf("%s may write through argument %d, which must be an assigns target or fresh", what, fe.arg))
+		default:
+			vc.oblige("frame.call", vc.cur.pc, "false", pos, what+" may write through a non-pointer argument")
+		}
+	}
 }
 
 func (vc *VC) applyFrame(h *Heap, fr []frameEntry, args []*Val) {
@@ -583,8 +621,10 @@ func (vc *VC) applyContract(ins *ssa.Call, c *Contract, f *ssa.Function, sig *ty
 		vc.assume(app(">=", na, h.alloc))
 		h.alloc = na
 	case f != nil && len(f.Blocks) > 0 && !c.AssignsAny:
+		vc.frameOfCallCheck(vc.e.frameOf(f), args, ins.Pos(), f.Name())
 		vc.applyFrame(h, vc.e.frameOf(f), args)
 	default:
+		vc.frameOfCallCheck([]frameEntry{{allComps(), -1}}, args, ins.Pos(), "callee")
 		vc.havocAll(h, nil)
 	}
 	// results
